@@ -61,6 +61,12 @@ type object struct {
 	call func(ctx context.Context, rc *callRec, sp spec) string
 	// base context shared by ALL calls of the object (may carry a callback manager)
 	baseCtx func(withHandlers bool) context.Context
+	// model side (nil: this kind of object is not modelled, the correspondence replays the
+	// solo observations): the description of what was built, the nesting depth, and the
+	// Gallina term of what a call brings (input, options, runtime step limit)
+	desc  *dGraph
+	depth int
+	mcall func(sp spec, specIdx int) string
 }
 
 // lopt is the per-call option of harness lambdas: it carries the tag of the call that passed it.
@@ -331,6 +337,42 @@ func sharedHandler(name string) callbacks.Handler {
 		}).Build()
 }
 
+// partialHandler implements only some timings: callbacks.On filters the handler list by
+// timing (TimingChecker), a place where a list shared between runs could be rewritten.
+func partialHandler(name string, start bool) callbacks.Handler {
+	log := func(ctx context.Context, timing string, info *callbacks.RunInfo) {
+		n := ""
+		if info != nil {
+			n = info.Name + "|" + string(info.Component)
+		}
+		ev(ctx, "scb:"+name+":"+timing+":"+n)
+	}
+	b := callbacks.NewHandlerBuilder()
+	if start {
+		b = b.OnStartFn(func(ctx context.Context, info *callbacks.RunInfo, input callbacks.CallbackInput) context.Context {
+			log(ctx, "start", info)
+			return ctx
+		}).OnStartWithStreamInputFn(func(ctx context.Context, info *callbacks.RunInfo, input *schema.StreamReader[callbacks.CallbackInput]) context.Context {
+			log(ctx, "sstart", info)
+			input.Close()
+			return ctx
+		})
+	} else {
+		b = b.OnEndFn(func(ctx context.Context, info *callbacks.RunInfo, output callbacks.CallbackOutput) context.Context {
+			log(ctx, "end", info)
+			return ctx
+		}).OnErrorFn(func(ctx context.Context, info *callbacks.RunInfo, err error) context.Context {
+			log(ctx, "error", info)
+			return ctx
+		}).OnEndWithStreamOutputFn(func(ctx context.Context, info *callbacks.RunInfo, output *schema.StreamReader[callbacks.CallbackOutput]) context.Context {
+			log(ctx, "send", info)
+			output.Close()
+			return ctx
+		})
+	}
+	return b.Build()
+}
+
 func renderCb(x any) string {
 	switch t := x.(type) {
 	case []*schema.Message:
@@ -368,8 +410,10 @@ func sharedCtx(withHandlers bool) context.Context {
 	if !withHandlers {
 		return ctx
 	}
-	hs := make([]callbacks.Handler, 2, 8)
+	hs := make([]callbacks.Handler, 4, 8)
 	hs[0] = sharedHandler("c0")
-	hs[1] = sharedHandler("c1")
+	hs[1] = partialHandler("c1s", true) // needed at start timings only
+	hs[2] = sharedHandler("c1")
+	hs[3] = partialHandler("c2e", false) // needed at end / error timings only
 	return callbacks.InitCallbacks(ctx, &callbacks.RunInfo{Name: "caller"}, hs...)
 }
